@@ -432,7 +432,40 @@ func (s *static) edit(w *World, last bool) {
 	for i, k := 0, int(t.Draw(3)); i < k; i++ {
 		s.request(w)
 	}
-	style := t.Draw(6)
+	style := t.Draw(7)
+	if style == 6 {
+		// an update of the same byte length that keeps the modification time (cp -p / rsync -t, then rename):
+		// one address changes by a digit
+		cur, ok := w.Sim.FSData(path)
+		if !ok || len(cur) == 0 {
+			style = 0
+		} else {
+			b := append([]byte(nil), cur...)
+			changed := false
+			for i := len(b) - 1; i >= 0 && !changed; i-- {
+				if b[i] >= '1' && b[i] <= '8' && (i+1 == len(b) || b[i+1] == '\n') {
+					b[i]++
+					changed = true
+				}
+			}
+			if !changed {
+				style = 0
+			} else {
+				text = string(b)
+				s.final[p] = text
+				w.hist("operator: replace %s by a same-size file with preserved mtime", filepath.Base(path))
+				w.Sim.KeepMtime = true
+				w.Sim.FSRenameOver(path, b)
+				w.Sim.KeepMtime = false
+				s.lastMod[p] = w.Sim.Steps
+				s.lastModNow[p] = w.Sim.Now()
+				s.readErrAfterMod[p] = false
+				s.watchKilled[p] = true
+				w.Probe("file.same_size_same_mtime_update")
+				return
+			}
+		}
+	}
 	if s.watchKilled[p] {
 		s.editsAfterKill[p]++
 	}
